@@ -450,6 +450,7 @@ class CFGBuilder:
         if callee_self is not None and pos and pos[0].name == callee_self:
             pos = pos[1:]
         alias: Dict[str, str] = {}
+        subst: Dict[str, ast.AST] = {}
         binds: List[Tuple[str, ast.AST]] = []
         if callee_self is not None and not keep_self and recv is not None:
             binds.append((callee_self + sfx, recv))
@@ -466,9 +467,33 @@ class CFGBuilder:
                 arg = q.default if q.default is not None else ast.Constant(value=None)
             if isinstance(arg, ast.Name) and q.name not in stored:
                 alias[q.name] = arg.id
+            elif q.name not in stored and self._pure_arg(arg):
+                # a constant or an attribute chain (`self.file_manager.read_manifest_list_file`, `base.properties`): the
+                # parameter stands for that expression - substituted at every use, so constants stay visible to the rules
+                # and a function value passed as an argument is called by its real name
+                subst[q.name] = arg
             else:
                 binds.append((q.name + sfx, arg))
-        for st in body:
+
+        class _Sub(ast.NodeTransformer):
+            def visit_Name(s_, x: ast.Name) -> ast.AST:  # noqa: N805
+                if isinstance(x.ctx, ast.Load) and x.id in subst:
+                    new = copy.deepcopy(subst[x.id])
+                    for y in ast.walk(new):
+                        ast.copy_location(y, x)
+                    return new
+                return x
+
+        for i, st in enumerate(body):
+            if subst:
+                st = _Sub().visit(st)
+                body[i] = st
+                # calls whose callee was the substituted parameter are resolved afresh (in the caller's context)
+                for x in ast.walk(st):
+                    if isinstance(x, ast.Call):
+                        pre = self._pre.get(id(x))
+                        if pre is not None and pre.kind in ("param", "unknown"):
+                            self._pre.pop(id(x), None)
             for x in ast.walk(st):
                 if isinstance(x, ast.Name) and x.id in alias:
                     x.id = alias[x.id]
@@ -477,6 +502,15 @@ class CFGBuilder:
                 elif isinstance(x, ast.ExceptHandler) and x.name in local_names:
                     x.name = x.name + sfx
         return body, binds
+
+    @staticmethod
+    def _pure_arg(arg: ast.AST) -> bool:
+        if isinstance(arg, ast.Constant):
+            return True
+        x = arg
+        while isinstance(x, ast.Attribute):
+            x = x.value
+        return isinstance(x, ast.Name) and isinstance(arg, ast.Attribute)
 
     def _inline(self, call: ast.Call, t: FunctionInfo, marker: int, stmt: ast.AST, as_cond: bool = False):
         body, binds = self._instantiate(call, t)
